@@ -147,6 +147,11 @@ func RunAll(run *hlib.Run, prop string, sigPrefixes []string, n int) {
 			traces++
 			continue
 		}
+		if sc.CloseAtEvent >= 0 {
+			run.Emit(fmt.Sprintf("scmark sc %d closeAtEvent=%d", s, sc.CloseAtEvent), "ok")
+		} else {
+			run.Emit(fmt.Sprintf("scmark sc %d", s), "ok")
+		}
 		tl := TraceLines(res)
 		run.Emit(tl[0], "ok") // reset
 		bops, bans := BrokerLines(res)
